@@ -102,6 +102,23 @@ func writerSpace(r *chk.Run, so spaceOpts, oracle writerOracle) {
 			return run(c, cfg, x)
 		}, chk.PhaseOpts{Share: 0.7})
 	}
+	// records larger than the writer's internal thresholds (1 MiB default chunk size, buffer growth):
+	// a 1.3 MiB message followed by more records, under a small set of configurations
+	bigW := largeWorkloads()
+	r.Phase("large-records-and-long-workloads", func(x *explore.Ctx) *explore.Verdict {
+		c := bigW[x.Choose("op", len(bigW))]
+		type m struct {
+			chunked bool
+			size    int64
+			comp    string
+		}
+		modes := []m{{false, 0, ""}, {true, 1, ""}, {true, 64, ""}, {true, 700, ""}, {true, 0, ""}, {true, 1 << 40, ""}, {true, 64, "zstd"}, {true, 0, "lz4"}}
+		md := modes[x.Choose("cfg", len(modes))]
+		fl := []int{0, gow.FSkipMessageIndexing | gow.FSkipChunkIndex, 1<<gow.NFlags - 1 - gow.FSkipMagic}[x.Choose("cfg", 3)]
+		cfg := gow.Config{Flags: fl, CRC: x.Bool("cfg"), Chunked: md.chunked, ChunkSize: md.size, Compression: md.comp}
+		x.Ops += len(c.Ops)
+		return run(c, cfg, x)
+	}, chk.PhaseOpts{Share: 0.5})
 	// emphasis workloads (always included, not sampled) under every flag combination of the mask
 	fixed := append(emphasis(), so.fixed...)
 	r.Phase("emphasis-workloads", func(x *explore.Ctx) *explore.Verdict {
@@ -122,6 +139,31 @@ func writerSpace(r *chk.Run, so spaceOpts, oracle writerOracle) {
 		x.Ops += len(c.Ops)
 		return run(c, cfg, x)
 	}, chk.PhaseOpts{})
+}
+
+// largeWorkloads: messages bigger than 1 MiB (the default chunk size) with records before and after.
+func largeWorkloads() []*model.Content {
+	h := model.Headers[0]
+	var many, inter []model.Op
+	many = append(many, model.Chn(model.C0), model.Sch(model.S1), model.Chn(model.C1), model.Msg(1, 500, 3, 0))
+	for i := 0; i < 100; i++ {
+		many = append(many, model.Msg(0, uint64(1000-i), i%7, 0))
+	}
+	many = append(many, model.Msg(1, 2, 9, 0), model.Met(model.D1))
+	inter = append(inter, model.Sch(model.S2), model.Chn(model.C2), model.Chn(model.C0), model.Sch(model.S1), model.Chn(model.C1))
+	for i := 0; i < 240; i++ {
+		inter = append(inter, model.Msg([]uint16{65535, 0, 1}[i%3], uint64(i*37%101), 10+i%23, 0))
+		if i == 150 {
+			inter = append(inter, model.Att(model.A2))
+		}
+	}
+	return []*model.Content{
+		// many records per chunk: >64 messages on one channel next to a later-registered channel; 3 channels interleaved
+		model.Fixed(h, many...),
+		model.Fixed(h, inter...),
+		model.Fixed(h, model.Chn(model.C0), model.Msg(0, 1, 3, 0), model.Msg(0, 2, 1<<20+300000, 0), model.Msg(0, 3, 5, 0), model.Sch(model.S1), model.Chn(model.C1), model.Msg(1, 4, 70, 0), model.Met(model.D1)),
+		model.Fixed(h, model.Sch(model.S1), model.Chn(model.C1), model.Msg(1, 9, 1<<20+1, 0), model.Att(model.A1), model.Msg(1, 8, 1<<20+2, 0), model.Msg(1, 7, 0, 0)),
+	}
 }
 
 // emphasis returns the fixed workloads DESIGN names explicitly: t=0 messages, descending times
